@@ -885,12 +885,16 @@ func (g *G) shape(name string, wantValid int) cmdShape {
 
 // ---- safety filter --------------------------------------------------------
 
+// parsesSmall: s parses as a number of seconds that is not safely inside
+// [limit, 1e9]: small, negative, NaN, or so large that the server's
+// conversion to a duration overflows (EX 1e22 makes an object expire at
+// once, which the twins would see at different moments).
 func parsesSmall(s string, limit float64) bool {
 	f, err := strconv.ParseFloat(strings.TrimSpace(s), 64)
 	if err != nil {
 		return false // rejected by the server
 	}
-	return !(f >= limit) // small, negative, NaN
+	return !(f >= limit && f <= 1e9)
 }
 
 // unwrapTimeout returns the command a TIMEOUT prefix wraps (or args itself).
